@@ -1,7 +1,7 @@
 """Sensitivity mutations used for C17 (all caught by `bin/check C17`, all invisible to the pinned suite).
 
 usage: NUTREE_REPO=<scratch repo worktree with fixes applied> python harness/mutations_C17.py <name>   # applies ONE mutation
-       (undo with `git -C $NUTREE_REPO checkout -- . && git -C $NUTREE_REPO apply fixes/D36.diff fixes/D37.diff fixes/D171.diff`)
+       (undo with `git -C $NUTREE_REPO checkout -- . && git -C $NUTREE_REPO apply fixes/D36.diff fixes/D37.diff fixes/D171.diff fixes/D172.diff`)
 """
 import os, sys
 
